@@ -336,6 +336,30 @@ fn case(i: u64, seed: u64, out: &mut CaseOut) {
         let low_level = rng.chance(1, 5);
         let stored = block_on(r.rep.get_task_data(u)).ok().flatten();
         let Some(stored) = stored else { continue };
+        if rng.chance(1, 10) {
+            // purge the task outright (TaskData::delete): the recorded operation must carry the old
+            // content, and everything derived from the task (dependency map, synthetic tags of the
+            // tasks depending on it) must follow
+            let want_old: TaskM = data_map(&stored);
+            let mut td = stored;
+            let mut ops = Operations::new();
+            td.delete(&mut ops);
+            trail.push(format!("TaskData::delete({})", model::su(u)));
+            let ok = matches!(ops.as_slice(), [Operation::Delete { uuid, old_task }] if *uuid == u && model::taskmap_to_m(old_task) == want_old);
+            if !ok {
+                out.violate("ops/delete-old-task", format!("TaskData::delete recorded {:?}", show_ops(&ops)), replay.clone());
+                return;
+            }
+            if let Err(e) = block_on(r.rep.commit_operations(ops)) {
+                out.violate("commit-error", format!("{e:#}"), replay.clone());
+                return;
+            }
+            if block_on(r.rep.get_task_data(u)).ok().flatten().is_some() {
+                out.violate("commit/purged-task-still-stored", "task still exists after committing its Delete".to_string(), replay.clone());
+                return;
+            }
+            out.count("purges", 1);
+        } else {
         let stored_map = data_map(&stored);
         let mut ops = Operations::new();
         let final_map: TaskM;
@@ -458,10 +482,31 @@ fn case(i: u64, seed: u64, out: &mut CaseOut) {
             return;
         }
         out.count("commit_reload_checks", 1);
+        }
         // synthetic tags and dependency map vs independent computation (fresh map, fresh working set)
         let _ = block_on(r.rep.rebuild_working_set(false));
         let tasks: Tasks = block_on(model::replica_tasks(&mut r.rep)).unwrap_or_default();
         let ws: BTreeSet<Uuid> = block_on(r.rep.working_set()).map(|w| w.iter().map(|(_, u)| u).collect()).unwrap_or_default();
+        // A commit through this replica discards its cached dependency map ("all local state on
+        // the replica will be updated accordingly, including ... temporarily cached data"), so even
+        // without forcing, what the replica serves now must reflect the stored data.
+        {
+            let cached = block_on(r.rep.dependency_map(false));
+            let forced = block_on(r.rep.dependency_map(true));
+            if let (Ok(c), Ok(f)) = (cached, forced) {
+                for p in &peers {
+                    let a: BTreeSet<Uuid> = c.dependencies(*p).collect();
+                    let b2: BTreeSet<Uuid> = f.dependencies(*p).collect();
+                    let a2: BTreeSet<Uuid> = c.dependents(*p).collect();
+                    let b3: BTreeSet<Uuid> = f.dependents(*p).collect();
+                    if a != b2 || a2 != b3 {
+                        out.violate("depmap/stale-after-commit", format!("after a commit the replica still serves an old dependency map for {}: dependencies {a:?} vs {b2:?}, dependents {a2:?} vs {b3:?}; trail {trail:?}", model::su(*p)), replay.clone());
+                        return;
+                    }
+                }
+                out.count("cached_depmap_checks", 1);
+            }
+        }
         let dm = match block_on(r.rep.dependency_map(true)) {
             Ok(d) => d,
             Err(e) => {
